@@ -172,8 +172,11 @@ def run(prog: Program, res: Result) -> None:
     # ------------------------------------------------------------------ get_pool_results
     okh, why = check_get_pool_results(prog)
     gp = prog.func(f"{PKG}.helpers.get_pool_results")
-    res.ob(okh, f"{gp.loc()} get_pool_results: one result per completed future, unfiltered", "get_pool_results")
-    if not okh:
+    if okh is None:
+        res.errors.append(f"{gp.loc()} get_pool_results: {why} (undecided)")
+    else:
+        res.ob(okh, f"{gp.loc()} get_pool_results: one result per completed future, unfiltered", "get_pool_results")
+    if okh is False:
         res.add(Finding(P, "C11.R1-gather-exactly-once", "helpers.get_pool_results::loop", gp.loc(), f"get_pool_results: {why}"))
     # executor factory: thread -> ThreadPoolExecutor else ProcessPoolExecutor, both with n_workers
     ge = prog.func(f"{PKG}.helpers.get_pool_executor")
@@ -247,20 +250,23 @@ def check_get_pool_results(prog: Program) -> tuple:
             apps = [n for n in ast.walk(loops[0]) if isinstance(n, ast.Call) and isinstance(n.func, ast.Attribute) and n.func.attr in ("append", "extend", "insert")]
             if jumps or len(apps) != 1:
                 return False, "results are not appended exactly once per future (filter, break, try/except or extra append)"
-        return False, f"the returned value `{norm(v, 60)}` is not the list of every future's result"
+        return None, f"the returned value `{norm(v, 60)}` is not recognised as the list of every future's result"
     if len(v.generators) != 1:
         return False, "nested comprehension over the futures"
     g = v.generators[0]
     if g.ifs:
         return False, f"results are filtered (`if {norm(g.ifs[0], 50)}`): a pooled evaluation can be lost"
-    it = g.iter
+    it = origin(gp.node, g.iter) if isinstance(g.iter, ast.Name) and g.iter.id != param else g.iter
     ac_args = (list(it.args) + [k.value for k in it.keywords if k.arg == "fs"]) if isinstance(it, ast.Call) else []
     over = (isinstance(it, ast.Call) and dotted(it.func) in ("parallel.as_completed", "as_completed", "concurrent.futures.as_completed")
             and len(ac_args) == 1 and dotted(ac_args[0]) == param and all(k.arg in ("fs", "timeout") for k in it.keywords)) \
         or dotted(it) == param \
         or (isinstance(it, ast.Call) and dotted(it.func) in ("parallel.wait",) and False)
     if not over:
-        return False, f"the comprehension ranges over `{norm(it, 50)}`, not over every submitted future"
+        sub = it.args[0] if isinstance(it, ast.Call) and it.args else it
+        if isinstance(sub, ast.Subscript) and dotted(sub.value) == param:
+            return False, f"the comprehension ranges over `{norm(it, 50)}`, not over every submitted future"
+        return None, f"what the comprehension ranges over (`{norm(it, 50)}`) is not recognised as every submitted future"
     e = v.elt
     if not (isinstance(e, ast.Call) and isinstance(e.func, ast.Attribute) and e.func.attr == "result" and isinstance(g.target, ast.Name)
             and dotted(e.func.value) == g.target.id):
